@@ -111,6 +111,12 @@ func (w *w4Run) roundTrip(req *http.Request) (*http.Response, error) {
 		return nil, errors.New("sim: request outside a call")
 	}
 	f := call.op.Fault
+	if req.Method == http.MethodGet && req.URL.Path == "/login" {
+		// where the authentication server sends those it turns away: an ordinary page, answered 200
+		simrt.Rec("auth.login.get", "", "", int64(call.actor), int64(call.idx), 0)
+		return &http.Response{Proto: "HTTP/1.1", ProtoMajor: 1, ProtoMinor: 1, Header: http.Header{}, Request: req,
+			StatusCode: 200, Status: "200 OK", ContentLength: -1, Body: &w4Reader{ctx: req.Context(), data: []byte("<html>please log in</html>")}}, nil
+	}
 	isJWKS := req.Method == http.MethodGet
 	var post *w4Post
 	var fetchIdx = -1
@@ -208,6 +214,12 @@ func (w *w4Run) roundTrip(req *http.Request) (*http.Response, error) {
 		}
 		if f.Kind == "status" {
 			status = f.Status
+		}
+		if f.Kind == "redirect" && req.URL.Path != "/login" {
+			// turned away with a redirection to the login page (a 307/308 makes the client repeat
+			// the POST there, where it is judged like any POST)
+			status = f.Status
+			res.Header.Set("Location", "/login")
 		}
 		res.StatusCode = status
 		rd.data = []byte("reason")
